@@ -423,13 +423,14 @@ pub fn write_replay(
     trace: &[String],
     note: &str,
 ) -> std::io::Result<()> {
+    let trace: Vec<String> = trace.iter().map(|l| clean(l)).collect();
     let j = json!({
         "property": sc.property,
         "binary": bin,
         "seed": seed,
         "run_index": idx,
-        "oracle": v.oracle,
-        "violation": v.msg,
+        "oracle": clean(&v.oracle),
+        "violation": clean(&v.msg),
         "tape": tape,
         "note": note,
         "trace": trace,
@@ -645,7 +646,8 @@ fn cmd_worker(scenarios: &[Scenario], a: WorkerArgs) -> i32 {
             st.evhashes.insert(out.ev_hash);
         }
         if want_sample && out.nontrivial && !out.sample.is_empty() {
-            st.samples.push(json!({"run_index": idx, "seed": a.seed, "steps": out.sample}));
+            let steps: Vec<String> = out.sample.iter().map(|l| clean(l)).collect();
+            st.samples.push(json!({"run_index": idx, "seed": a.seed, "steps": steps}));
         }
         if let Err(v) = &out.verdict {
             st.violating_runs += 1;
@@ -681,7 +683,7 @@ fn cmd_worker(scenarios: &[Scenario], a: WorkerArgs) -> i32 {
                     st.harness_errors.push(format!("cannot write replay: {e}"));
                 }
                 found.push(json!({
-                    "oracle": v2.oracle, "msg": v2.msg, "replay": path.to_string_lossy(),
+                    "oracle": clean(&v2.oracle), "msg": clean(&v2.msg), "replay": path.to_string_lossy(),
                     "run_index": idx,
                 }));
             }
@@ -706,6 +708,12 @@ fn sanitize(s: &str) -> String {
         .map(|c| if c.is_ascii_alphanumeric() || c == '_' { c } else { '_' })
         .take(60)
         .collect()
+}
+
+/// Strings produced while the code under test was reading garbage may hold invalid UTF-8
+/// (they were built with unchecked constructors): make them safe to serialise.
+pub fn clean(s: &str) -> String {
+    String::from_utf8_lossy(s.as_bytes()).chars().take(6000).collect()
 }
 
 fn write_worker_result(a: &WorkerArgs, st: &WorkerStats, found: &[Value], with_sets: bool) {
